@@ -697,17 +697,15 @@ def capture_agreement(reader, rflags, rmode, template, tflags, groups, alpha=Non
     return agreement(reader, rflags, rmode, Tm, Te, groups, rgroups, alpha)
 
 
-def agreement(reader, rflags, rmode, Tm, Te, groups, rgroups=None, alpha=None):
-    """capture agreement against a template given as automata (Tm marked, Te erased)"""
+def marked_reader(reader, rflags, rmode, groups, rgroups=None, alpha=None):
+    """(Rm, Re): the reader's marked language restricted to the parses backtracking can choose
+    (lazy/greedy single-character tails, leading greedy optional groups), and its plain language"""
     rgroups = rgroups or {g: g for g in groups}
     markers = [(k, g) for g in groups for k in ('open', 'close')]
     kind = 'bytes' if isinstance(reader, bytes) else 'str'
     alpha = alpha or alphabet(kind)
-    if Tm.markers != markers:
-        raise AnalysisError('internal: template markers differ from the requested groups')
     Rm = _renamed(regex_lang(reader, rflags, rmode, [rgroups[g] for g in groups], None, alpha), markers)
     Re = regex_lang(reader, rflags, rmode, (), [], alpha)
-    w1 = Te.not_subset_witness(Re)
     for g in groups:
         k = tail_kind(reader, rflags, rgroups[g])
         if k is not None:
@@ -720,6 +718,19 @@ def agreement(reader, rflags, rmode, Tm, Te, groups, rgroups=None, alpha=None):
         # backtracking tries the participating alternative of a leading greedy optional first:
         # a parse without it is never chosen for a string that also has a parse with it
         Rm = Rm.minus(part.complement().intersect(lift(with_g, markers)))
+    return Rm, Re
+
+
+def agreement(reader, rflags, rmode, Tm, Te, groups, rgroups=None, alpha=None):
+    """capture agreement against a template given as automata (Tm marked, Te erased)"""
+    rgroups = rgroups or {g: g for g in groups}
+    markers = [(k, g) for g in groups for k in ('open', 'close')]
+    kind = 'bytes' if isinstance(reader, bytes) else 'str'
+    alpha = alpha or alphabet(kind)
+    if Tm.markers != markers:
+        raise AnalysisError('internal: template markers differ from the requested groups')
+    Rm, Re = marked_reader(reader, rflags, rmode, groups, rgroups, alpha)
+    w1 = Te.not_subset_witness(Re)
     nA = alpha.n
     seen = {(0, 0, 0): None}
     dq = deque([(0, 0, 0)])
